@@ -16,12 +16,13 @@ ID = "C19"
 LEVEL = "exploration"
 RULE = (
     "Schedules of 2-3 concurrent loads on one opened tree served by vtrace://. The harness owns "
-    "the schedule: every filesystem operation (open / seek / read / close) and every acquisition "
+    "the schedule: every filesystem operation (open / seek / read / readinto / close; a read is two "
+    "yield points: before it takes effect and after the data has been delivered) and every acquisition "
     "of xarray's SerializableLock is a yield point of a deterministic cooperative scheduler that "
     "lets exactly one thread run and takes the next thread from the generated schedule (a thread "
     "waiting for a held lock is not runnable; 'unfinished threads, none runnable' = deadlock). "
-    "Scenarios: same variable x2 / x3, different variables, original + pickled copy, pickled "
-    "copies only; each thread loads a generated selection. Quick: Hypothesis-drawn schedules "
+    "Scenarios: same variable x2 / x3, different variables (of different and of identical "
+    "geometry), original + pickled copy, pickled copies only; each thread loads a generated selection. Quick: Hypothesis-drawn schedules "
     "(lists of choices) plus a bounded depth-first enumeration; thorough: depth-first "
     "enumeration of ALL distinct interleavings for every 2-thread scenario and a bounded set for "
     "3 threads. Oracle: every thread's array is bit-equal to the single-threaded result, all "
@@ -43,7 +44,8 @@ SELECTIONS = [
     {"rows": ("slice", None, None, -2)},
     {"rows": ("list", [4, 0])},
 ]
-SCENARIOS = ["same-var-2", "same-var-3", "different-vars", "pickled+original", "pickled-only", "mixed-3"]
+SCENARIOS = ["same-var-2", "same-var-3", "different-vars", "pickled+original", "pickled-only", "mixed-3",
+             "same-geometry-vars", "same-geometry-pickled"]
 
 
 class SchedulerAbort(BaseException):
@@ -208,7 +210,8 @@ def patch_lock():
 @functools.lru_cache(maxsize=None)
 def world():
     patch_lock()
-    spec = common.spec_from({"level": "1.5", "images": [{"lines": 5, "pixels": 3}, {"lines": 5, "pixels": 2}], "vseed": 19})
+    # HH and VH have the same geometry (same record length, same chunk byte sizes), HV differs
+    spec = common.spec_from({"level": "1.5", "images": [{"lines": 5, "pixels": 3}, {"lines": 5, "pixels": 2}, {"lines": 5, "pixels": 3}], "vseed": 19})
     files, info = product.build_product(spec)
     prod = harness.Materialised(files, "vtrace").__enter__()
     tree = harness.open_tree(prod.url, use_cache=False, records_per_chunk=2)
@@ -234,6 +237,9 @@ def actors(scenario):
         "pickled+original": [("tree", "HH"), ("copy", "HH")],
         "pickled-only": [("copy", "HV"), ("copy", "HV")],
         "mixed-3": [("tree", "HH"), ("copy", "HH"), ("tree", "HV")],
+        # two different images whose records and chunks have identical byte sizes
+        "same-geometry-vars": [("tree", "HH"), ("tree", "VH")],
+        "same-geometry-pickled": [("tree", "HH"), ("copy", "VH")],
     }[scenario]
 
 
@@ -359,7 +365,7 @@ def run_case(case):
             break
     COUNTS[key] = units if realisable else []
     if realisable:
-        NOTES["dfs-complete" if complete else "dfs-truncated"] += 1
+        NOTES["dfs-complete" if complete else "inexhaustive:dfs-truncated"] += 1
     return out if realisable else []
 
 
